@@ -210,6 +210,16 @@ func genC03(r *gen.Rand) *C03Case {
 			}
 			if r.Chance(0.2) {
 				tgt = "@ABS@/" + top
+			} else if r.Chance(0.35) {
+				// two hops through two directories: the second link's relative
+				// target is relative to ITS directory, not to the first link's
+				hdir := c03Dir + r.Pick("/hop", "/hop/deeper", "/hop/deeper")
+				w.Dirs = append(w.Dirs, hdir)
+				mid := filepath.Join(hdir, "mid."+procsim.Ext(top))
+				rp, _ := filepath.Rel(hdir, top)
+				w.Links = append(w.Links, procsim.Link{Path: mid, Target: rp})
+				tgt, _ = filepath.Rel(filepath.Dir(link), mid)
+				c.Shape = append(c.Shape, "symlink-two-hops")
 			}
 			w.Links = append(w.Links, procsim.Link{Path: link, Target: tgt})
 			top = link
